@@ -506,6 +506,11 @@ class Evaluator:
             r = None
         if r and r[0] == "class":
             q = r[1].qualname
+            mod_ = self.prog.modules.get(q.rsplit(".", 1)[0])
+            if mod_ is not None:      # a private helper class imported from a sibling module
+                rc = self.record_class(mod_, q.rsplit(".", 1)[1])
+                if rc is not None:
+                    return rc
         last = q.rsplit(".", 1)[-1]
         if r and r[0] == "func" and last != "unwrap":
             return _Closure(r[2], {}, self, module=r[1])
